@@ -44,3 +44,22 @@ func (rr ReflectRoute) TraverseToValue(v reflect.Value) reflect.Value {
 	}
 	return v
 }
+
+// TraverseToValueAllocating is like TraverseToValue, but sets any nil pointers
+// it needs to pass through to fresh zero values (for use when unmarshalling).
+// If such a pointer cannot be set, an invalid Value is returned.
+func (rr ReflectRoute) TraverseToValueAllocating(v reflect.Value) reflect.Value {
+	for _, i := range rr {
+		if v.Kind() == reflect.Ptr {
+			if v.IsNil() {
+				if !v.CanSet() {
+					return reflect.Value{}
+				}
+				v.Set(reflect.New(v.Type().Elem()))
+			}
+			v = v.Elem()
+		}
+		v = v.Field(i)
+	}
+	return v
+}
